@@ -242,7 +242,10 @@ pub fn check_doy(rep: &mut Rep, y: i32, x: f64, s: TimeScale) {
             // expected epoch: 1 Jan + trunc((x-1) days)
             let jan1 = count_of(&Fields { y: y as i64, m: 1, d: 1, h: 0, mi: 0, s: 0, ns: 0 }, s);
             let off = crate::props::c18::model_in(x - 1.0, hifitime::Unit::Day).unwrap();
-            if e.time_scale != s || count_d(e.duration) != jan1 + off {
+            // the statement fixes the (year, day) read-back "to float precision", not the nanosecond at which a fractional
+            // day is cut: the built epoch may differ from trunc((x-1) days) by the float precision of a day of year
+            let slack: i128 = if x.fract() == 0.0 { 0 } else { (8.0 * flt::ulp(366.0) * NS_D as f64).ceil() as i128 + 1 };
+            if e.time_scale != s || (count_d(e.duration) - (jan1 + off)).abs() > slack {
                 rep.fail("doy/from-value", None, || format!("from_day_of_year({y},{},{:?}) = ({}, {:?}) want {} + {}", fmt_f64(x), s, count_d(e.duration), e.time_scale, jan1, off));
             }
             if x == 1.0 && count_d(e.duration) != jan1 {
@@ -252,7 +255,7 @@ pub fn check_doy(rep: &mut Rep, y: i32, x: f64, s: TimeScale) {
             if y2 != y || (d2 - x).abs() > tol || d3 != d2 {
                 rep.fail("doy/read-back", None, || format!("from_day_of_year({y},{},{:?}).year_days_of_year() = ({y2}, {}) ; day_of_year {}", fmt_f64(x), s, fmt_f64(d2), fmt_f64(d3)));
             }
-            if count_d(diy) != off {
+            if (count_d(diy) - off).abs() > slack {
                 rep.fail("doy/duration-in-year", None, || format!("from_day_of_year({y},{},{:?}).duration_in_year() = {} want {}", fmt_f64(x), s, count_d(diy), off));
             }
         }
